@@ -5,6 +5,7 @@ import (
 	"fmt"
 	"reflect"
 	"sync"
+	"time"
 )
 
 // Race mode (race build: untouched generated code, real sync, -race): real
@@ -24,6 +25,7 @@ type RaceResult struct {
 	Mock     string `json:"mock"`
 	Scenario string `json:"scenario"`
 	Iters    int    `json:"iters"`
+	Hung     bool   `json:"hung"` // the goroutines of one iteration did not finish within the limit
 	Lost     int    `json:"lost"` // iterations whose quiescent record count differs from the number of calls (scenarios without resets)
 	Infra    string `json:"infra,omitempty"`
 }
@@ -100,7 +102,16 @@ func runRace(job *RaceJob) *RaceResult {
 			}(gi, p)
 		}
 		close(start)
-		wg.Wait()
+		finished := make(chan struct{})
+		go func() { wg.Wait(); close(finished) }()
+		select {
+		case <-finished:
+		case <-time.After(20 * time.Second):
+			// real goroutines, real sync: this is a hang of generated code (C06's business);
+			// the blocked goroutines are left behind with their mock
+			res.Hung = true
+			return res
+		}
 		if !hasReset {
 			for a, n := range calls {
 				out := mv.MethodByName(job.Map[a] + "Calls").Call(nil)
